@@ -410,6 +410,18 @@ def purge_history(rng, nsids=None):
         observe(new)
         if rng.random() < 0.4:
             g.hist.append((wg.M, []))
+        if g.dead and rng.random() < 0.35:
+            # deferred deletion requested through handles that are dead by now (their indices may have new occupants
+            # with components): must be refused and must purge nothing at the next maintain
+            for h in rng.sample(g.dead, min(len(g.dead), rng.randint(1, 2))):
+                g.hist.append((wg.ED, [h]))
+            for _ in range(rng.randint(0, 2)):
+                if g.live:
+                    sid = rng.choice(g.regs)
+                    u, v = g.tok(sid)
+                    g.hist.append((INS, [sid, rng.choice(g.live), u, v]))
+            g.hist.append((wg.M, []))
+            observe()
     g.hist.append((DROPW, []))
     return g.hist
 
@@ -657,6 +669,12 @@ def lazy_purge_history(rng):
             sid = rng.choice(g.regs)
             u, v = g.tok(sid)
             prog.append((INS, [sid, rng.randrange(first_new, g.nh), u, v]))
+        doomed_in_closure = None
+        if g.live and rng.random() < 0.5:
+            # the closure itself requests the deferred deletion of an entity that owns components: it dies (and is
+            # purged) at the maintain after this one
+            doomed_in_closure = rng.choice(g.live)
+            prog.insert(rng.randint(0, len(prog)), (wg.ED, [doomed_in_closure]))
         g.hist.append((LEXEC, encode_ops(prog)))
         if rng.random() < 0.3 and g.live:
             sid = rng.choice(g.regs)
@@ -668,6 +686,16 @@ def lazy_purge_history(rng):
         for h in range(first_new, g.nh):
             for sid in g.regs:
                 g.hist.append((GET, [sid, h]))
+        if doomed_in_closure is not None:
+            g.kill(doomed_in_closure)
+            g.hist.append((wg.PROBE, []))
+            g.hist.append((wg.M, []))
+            for sid in g.regs:
+                g.hist.append((MSK, [sid]))
+            g.hist.append((wg.C, []))
+            for sid in g.regs:
+                g.hist.append((GET, [sid, g.nh]))
+            g.created(1)
     g.hist.append((wg.PROBE, []))
     g.hist.append((DROPW, []))
     return g.hist
